@@ -7,11 +7,15 @@ package appencryption
 
 //@ iface AEAD.Decrypt
 //@   names data, key
+//@   modifies ext_calls
+//@   ensures ext_calls == old(ext_calls) + 1
 //@   ensures err != nil ==> len(result) == 0
 //@   ensures result == nil || fresh(result)
 
 //@ iface AEAD.Encrypt
 //@   names data, key
+//@   modifies ext_calls
+//@   ensures ext_calls == old(ext_calls) + 1
 //@   ensures err != nil ==> len(result) == 0
 //@   ensures result == nil || fresh(result)
 
@@ -25,11 +29,15 @@ package appencryption
 
 //@ iface KeyManagementService.DecryptKey
 //@   names ctx, key
+//@   modifies ext_calls
+//@   ensures ext_calls == old(ext_calls) + 1
 //@   ensures err != nil ==> len(result) == 0
 //@   ensures result == nil || fresh(result)
 
 //@ iface KeyManagementService.EncryptKey
 //@   names ctx, key
+//@   modifies ext_calls
+//@   ensures ext_calls == old(ext_calls) + 1
 //@   ensures err != nil ==> len(result) == 0
 //@   ensures result == nil || fresh(result)
 
@@ -47,10 +55,72 @@ package appencryption
 
 //@ iface keyCacher.GetOrLoad
 //@   names id, loader
+//@   modifies ext_calls
+//@   ensures ext_calls > old(ext_calls)
 //@   ensures (err == nil) == (result != nil)
 
 //@ iface keyCacher.GetOrLoadLatest
 //@   names id, loader
+//@   modifies ext_calls
+//@   ensures ext_calls > old(ext_calls)
 //@   ensures (err == nil) == (result != nil)
 
 //@ iface keyCacher.Close
+
+// ---- C06 / C18: key ids and partition isolation ----
+
+//@ spec fn ikid(p string, s string, pr string) string = "_IK_" + p + "_" + s + "_" + pr
+//@ spec fn skid(s string, pr string) string = "_SK_" + s + "_" + pr
+
+//@ func (defaultPartition).IntermediateKeyID
+//@   facet C06, C18
+//@   ensures [C06,C18:ik-id-format] result == ikid(p.id, p.service, p.product)
+
+//@ func (defaultPartition).SystemKeyID
+//@   facet C06, C18
+//@   ensures [C06,C18:sk-id-format] result == skid(p.service, p.product)
+
+//@ func (defaultPartition).IsValidIntermediateKeyID
+//@   facet C06
+//@   ensures [C06:accepts-exactly-own-id] result == (id == ikid(p.id, p.service, p.product))
+
+// For all strings: different partitions of one service/product never share an intermediate-key id.
+//@ lemma [C06:default-isolation] forall p string, q string, s string, pr string :: p != q ==> ikid(p, s, pr) != ikid(q, s, pr)
+
+//@ func (suffixedPartition).IntermediateKeyID
+//@   facet C06, C18
+//@   ensures [C06,C18:ik-id-format] result == ikid(p.id, p.service, p.product) + "_" + p.suffix
+
+//@ func (suffixedPartition).SystemKeyID
+//@   facet C06, C18
+//@   ensures [C06,C18:sk-id-format] result == skid(p.service, p.product) + "_" + p.suffix
+
+//@ func (suffixedPartition).IsValidIntermediateKeyID
+//@   facet C06
+//@   ensures [C06:accepts-own-ids] (id == ikid(p.id, p.service, p.product) || id == ikid(p.id, p.service, p.product) + "_" + p.suffix) ==> result
+//@   ensures [C06:accepts-only-own-prefix] result ==> hasPrefix(id, ikid(p.id, p.service, p.product))
+//@   ensures [C06:isolation] forall q string, sq string :: q != p.id && (id == ikid(q, p.service, p.product) || id == ikid(q, p.service, p.product) + "_" + sq) ==> !result
+
+// partition as seen by the envelope code: a pure validity test
+//@ spec fn validIK(p partition, id string) bool
+//@ iface partition.IsValidIntermediateKeyID
+//@   names id
+//@   pure
+//@   ensures result == validIK(this, id)
+//@ iface partition.IntermediateKeyID
+//@   pure
+//@ iface partition.SystemKeyID
+//@   pure
+
+// every external lookup bumps ext_calls: a rejected record must be rejected before any of them
+//@ ghost var ext_calls int
+
+//@ func (*envelopeEncryption).DecryptDataRowRecord
+//@   facet C06
+//@   opt no-frame
+//@   ensures [C06:foreign-id-rejected-before-any-lookup] drr.Key != nil && drr.Key.ParentKeyMeta != nil && !validIK(e.partition, old(drr.Key.ParentKeyMeta.ID)) ==> err != nil && result == nil && ext_calls == old(ext_calls)
+
+//@ func (*SessionFactory).GetSession
+//@   facet C06
+//@   opt no-frame
+//@   ensures [C06:empty-partition-refused] id == "" ==> err != nil && result == nil
